@@ -106,6 +106,14 @@ def check_vector(v):
             shape = "int64-min" if any(x == -2 ** 63 for x in vals) else ("wide" if any(len(x[1]) >= 15 for x in batch) else "other")
             bad.append({"what": "ints_to_strings does not give the canonical decimal text", "tags": {"op": "ints_to_strings", "shape": shape},
                         "vector": v, "expected": want, "observed": o})
+        if len(batch) == 1 and vals[0] >= 0:
+            # the same value next to unsigned 64-bit values of twenty digits (beyond int64; formatter only: reading them back is out of range)
+            big = [2 ** 64 - 1, 10 ** 19, 10 ** 19 + vals[0] % 1000]
+            o = outcome(lambda: ints_to_strings(np.array([vals[0]] + big, dtype=np.uint64)).tolist())
+            n += 1
+            if o != ("ok", [want[0]] + [str(b) for b in big]):
+                bad.append({"what": "ints_to_strings of unsigned 64-bit values does not give their decimal text", "tags": {"op": "ints_to_strings", "shape": "uint64-twenty-digits"},
+                            "vector": v, "expected": [want[0]] + [str(b) for b in big], "observed": o})
         o = outcome(lambda: int_lists_to_strings(RaggedArray([vals, vals[:1]])).tolist())
         n += 1
         wj = [_txt(v["joined"]), want[0]]
